@@ -22,6 +22,8 @@ CLAIMS = {
          "Not decided: termination itself; FlattenedKeys/CompareConfigs recursion; reifyStruct/doReifyPrimitive scoping; the chain is assumed acyclic; run-time errors of reifyMap/cfgSub.reify are not claimed (norte).", "6/C08"),
  "C10": ("Frame and freshness proofs for the array side of Merge: fields.append and the array strategies write only destination locations or fresh objects (frame obligation at every store and callee frame) and every stored element is a fresh copy.",
          "Dictionary side (mergeConfigDict), cfgSub.cpy and normalizeValue re-parenting not yet under contract; induction over depth stated.", "6/C10"),
+ "C13": ("Proof of the all-or-nothing half on a reflect-storage model: a ghost memory holds a content version per storage root (the variable or object a reflect handle gives write access to); reifyStruct is proved, for every struct type, field count, tag combination and failure position, to leave the storage of the struct it was given at its entry version whenever it returns an error - it works on a copy allocated during the call (reflect.New, shown distinct from every storage that existed before), hands only handles rooted in that copy to the functions that convert, merge and validate, and writes the caller's struct by its final Set only (loop invariant over the fields). accessField is proved to return the handle of exactly the indexed field of the struct it was given, and parseTags (shared with C06) decides ignore/inline/merge policy as stated.",
+         "The effect of the reflect-driven callees on reflect storage is ASSUMED (rvwrites summaries: reifyInto, reifyMergeValue, reifyGetField, unpackWith, tryInitDefaults, tryValidate write the storage behind the handle they are given, or storage reached through pointers/maps/slices, summarised by one root that is assumed distinct from the struct being unpacked - no self-referential target); user code called through interfaces may write any storage (havoc). Not decided: the first half of the statement (exactly the mentioned fields change, merge of lists/maps by policy: reifyGetField, reifyMergeValue, reifySliceMerge bodies are reflect code outside the subset), InitDefaults ordering.", "6/C13"),
  "C14": ("Proof that every error leaving the getters, Child, Has, CountField and Remove is nil or a value whose dynamic type implements ucfg.Error (static type Error by typing; raw errors from value methods, strconv or errors.New do not satisfy it), and that the raise sites of the numeric/bool/duration conversions and of the typed getters build the error from exactly the value at fault (about(err) == val), so the message names that setting's path and source.",
          "Trusted: the raise* constructors turn a value's context/metadata into path and source text (fmt); Merge/NewFrom/Unpack entry points and the validation/array-size raise sites are not yet under contract; that the context is the position is C15's invariant.", "6/C14"),
  "C15": ("Proof of the structural part of the representation invariant for copies: every value constructor stores the context it is given, every primitive cpy returns a fresh value of the same type with the requested context (refinement of the interface contract), and cfgSub.cpy returns a fresh node whose dictionary and list children are fresh copies whose parent is the new node and whose field names are those of the originals (loop invariants over a map range in arbitrary order and over the list).",
